@@ -302,7 +302,7 @@ where
 
 pub fn random(ctx: &mut Ctx) {
     let mut rng = ctx.rng(0xC04_2);
-    let cases = ctx.by_tier(10, 150);
+    let cases = ctx.by_tier(40, 400);
     random_kind::<Bdd>(ctx, &mut rng, cases);
     random_kind::<Bcdd>(ctx, &mut rng, cases);
     random_kind::<Zbdd>(ctx, &mut rng, cases);
